@@ -225,7 +225,7 @@ func TestCorpusReplay(t *testing.T) {
 }
 
 func TestErrorShapeByteLevel(t *testing.T) {
-	harness.Check(t, "byte-level", 80000, 3000000, func(rt *rapid.T) {
+	harness.Check(t, "byte-level", 60000, 3000000, func(rt *rapid.T) {
 		src, class := inputs.Any(rt)
 		v := rapid.SampledFrom(px.KeyVersions).Draw(rt, "version")
 		harness.Class("src=" + class)
@@ -265,9 +265,9 @@ var brackets = map[byte]int{'(': 0, ')': 0, '[': 1, ']': 1, '{': 2, '}': 2}
 // TestGuaranteedInvalidEdits: a valid generated program plus one edit that no
 // PHP grammar can accept must produce at least one error.
 func TestGuaranteedInvalidEdits(t *testing.T) {
-	harness.Check(t, "invalid-edits", 30000, 1000000, func(rt *rapid.T) {
+	harness.Check(t, "invalid-edits", 24000, 1000000, func(rt *rapid.T) {
 		v := rapid.SampledFrom(px.KeyVersions).Draw(rt, "version")
-		o := progs.Options(v)
+		o := progs.StructuralOptions(v)
 		o.NoHalt = true // after __halt_compiler(); everything is data
 		o.LeadHTML = progs.Padding(rt)
 		c := progs.Draw(rt, v, o, 1, 4)
